@@ -24,6 +24,7 @@ import (
 	"shanhu.io/g/aries"
 	"shanhu.io/g/sniproxy"
 	"verif/harness/hx"
+	"verif/harness/snix"
 )
 
 func goid() uint64 {
@@ -221,6 +222,10 @@ func gen(r *hx.Rand, big bool) scenario {
 		if r.Intn(6) == 0 {
 			ls = append(ls, fmt.Sprintf("plainget name=%d", r.Intn(2)))
 		}
+		if r.Intn(3) == 0 {
+			// a front connection looks the name up while endpoints come and go (name 2 never has one)
+			ls = append(ls, fmt.Sprintf("front name=%d", r.Intn(3)))
+		}
 		end := hx.Pick(r, []string{"close", "sever", "leave", "leave"})
 		if i == hungAt {
 			end = "hung" // a peer that completes the handshake and then never answers anything
@@ -244,7 +249,23 @@ func run(sc scenario, seed uint64, rep *hx.Report) (lines, expect []string, skip
 		jitter: hx.NewRand(seed), unmapTry: map[int]int{}, conn: map[int]int{}, disc: map[int]int{}}
 	sniproxy.VerifSetHook(rec.hook)
 	defer sniproxy.VerifSetHook(nil)
-	srv := sniproxy.NewServer(&sniproxy.ServerConfig{OnConnect: rec.onConnect, OnDisconnect: rec.onDisconnect})
+	srv := sniproxy.NewServer(&sniproxy.ServerConfig{OnConnect: rec.onConnect, OnDisconnect: rec.onDisconnect,
+		Lookup: func(domain string) (*sniproxy.Dest, error) {
+			return &sniproxy.Dest{Name: "ep" + strings.TrimSuffix(domain, ".test")}, nil
+		}})
+	frontLis, err := net.Listen("tcp", "127.0.0.1:0")
+	if err != nil {
+		return nil, nil, "listen: " + err.Error()
+	}
+	fctx, fcancel := context.WithCancel(context.Background())
+	defer fcancel()
+	go srv.ServeFront(fctx, frontLis)
+	// the registry may be consulted by anybody at any time: a look-up that does not come back means its lock is held
+	lookupPtr := func(name string) (uintptr, bool) {
+		var p uintptr
+		ok := hx.WithTimeout(10*time.Second, func() { p = srv.VerifEndpointPtr(name) })
+		return p, ok
+	}
 	ts := httptest.NewServer(aries.Func(func(c *aries.C) error {
 		// the endpoint name is given explicitly and differs from the authenticated user
 		c.User = "user-" + strings.TrimPrefix(c.Path, "/")
@@ -277,6 +298,17 @@ func run(sc scenario, seed uint64, rep *hx.Report) (lines, expect []string, skip
 			rec.mu.Lock()
 			rec.parks["unmap-enter:"+holdName] = make(chan struct{})
 			rec.mu.Unlock()
+		case "front":
+			if c, err := net.Dial("tcp", frontLis.Addr().String()); err == nil {
+				c.Write(snix.ClientHello(kvs(ws, "name") + ".test"))
+				c.SetReadDeadline(time.Now().Add(300 * time.Millisecond))
+				io.Copy(io.Discard, c)
+				c.Close()
+			}
+			if _, ok := lookupPtr("ep0"); !ok {
+				rep.Fail("registry-lock-held", "after a front connection looked a name up, a look-up of ep0 did not return within 10 s", sc.lines)
+				return nil, nil, "registry lock held"
+			}
 		case "plainget":
 			// a request that is not a websocket handshake: no endpoint connection is accepted
 			resp, err := http.Get(ts.URL + "/" + kvs(ws, "name"))
@@ -424,7 +456,11 @@ func run(sc scenario, seed uint64, rep *hx.Report) (lines, expect []string, skip
 	}
 	stable()
 	for _, nm := range []string{"0", "1"} {
-		ptr := srv.VerifEndpointPtr("ep" + nm) // (registry lock before recorder lock, as in the hooks)
+		ptr, ok := lookupPtr("ep" + nm) // (registry lock before recorder lock, as in the hooks)
+		if !ok {
+			rep.Fail("registry-lock-held", "a look-up of ep"+nm+" did not return within 10 s", sc.lines)
+			return nil, nil, "registry lock held"
+		}
 		rec.mu.Lock()
 		want := "none"
 		if ptr != 0 {
@@ -445,7 +481,15 @@ func run(sc scenario, seed uint64, rep *hx.Report) (lines, expect []string, skip
 	}
 	ts.CloseClientConnections()
 	stable()
-	endPtr := map[string]uintptr{"0": srv.VerifEndpointPtr("ep0"), "1": srv.VerifEndpointPtr("ep1")}
+	endPtr := map[string]uintptr{}
+	for _, nm := range []string{"0", "1"} {
+		p, ok := lookupPtr("ep" + nm)
+		if !ok {
+			rep.Fail("registry-lock-held", "a look-up of ep"+nm+" did not return within 10 s", sc.lines)
+			return nil, nil, "registry lock held"
+		}
+		endPtr[nm] = p
+	}
 	rec.mu.Lock()
 	defer rec.mu.Unlock()
 	for _, nm := range []string{"0", "1"} {
@@ -511,6 +555,10 @@ func main() {
 	var spans []span
 	for i, sc := range scs {
 		lines, expect, skipped := run(sc, f.Seed*1000+uint64(i), rep)
+		if skipped == "registry lock held" {
+			rep.Note("stopped after scenario %d: the registry lock is held for ever", i)
+			break
+		}
 		if skipped != "" {
 			rep.Note("skipped: %s", skipped)
 			continue
